@@ -1,4 +1,5 @@
 import SoxrModel.Cr.Schedule
+import SoxrModel.Properties.C03
 /-!
 # C05 Schedule invariance: streamed, pulled and one-shot output are bit-identical
 
@@ -51,6 +52,33 @@ theorem schedule_invariance (K : Kern α) (z : α) (owed : Nat → Nat) (plan : 
     (c₁ : e₁'.sout = 0) (c₂ : e₂'.sout = 0) :
     D₁ ++ D₁' = D₂ ++ D₂' ∧ (D₁ ++ D₁').length = owed xs.length :=
   complete_runs_equal K z owed plan hwf xs s₁ s₂ t₁ t₂ D₁ D₂ F₁' F₂' D₁' D₂' e₁ e₂ e₁' e₂' n₁ n₂ r₁ r₂ ne₁ ne₂ d₁ d₂ c₁ c₂
+
+/-- **Schedule invariance without the never-early hypothesis.**  For a plan with compensated latency whose windows
+    reach their kernels' centres and whose post-context is at least half an output period (decidable facts about the
+    exported integers: `PlanLatOK`, `PlanEarlyOK`, `hpost`; evaluated by the driver on every plan), `never_early_round`
+    (C03) supplies `|D| ≤ ⌊N/rate + ½⌋`; so if the engine's `owed N` is not below that exact rounding, ANY two
+    complete runs deliver exactly the same `owed N` samples. -/
+theorem schedule_invariance_plan (K : Kern α) (z : α) (owed : Nat → Nat) (lp : List LStage)
+    (hwf : ∀ x ∈ lp, StageWF x.cfg x.s0) (he : PlanEarlyOK lp) (hlat : PlanLatOK false lp)
+    (hpost : rateOf (lp.map tstage) / 2 ≤ 1 + offsetOf (lp.map tstage) + margOf lp) (hpos : 0 < rateOf (lp.map tstage))
+    (xs : List α) (howed : ⌊(xs.length : ℚ) / rateOf (lp.map tstage) + 1 / 2⌋₊ ≤ owed xs.length)
+    (s₁ s₂ t₁ t₂ : List (DOp α)) (D₁ D₂ F₁' F₂' D₁' D₂' : List α) (e₁ e₂ e₁' e₂' : DEng α)
+    (n₁ : NoFlush s₁) (n₂ : NoFlush s₂)
+    (r₁ : DRuns K z owed (DEng.fresh z (lp.map LStage.toPlan)) s₁ xs D₁ e₁)
+    (r₂ : DRuns K z owed (DEng.fresh z (lp.map LStage.toPlan)) s₂ xs D₂ e₂)
+    (d₁ : DRuns K z owed (e₁.flush owed) t₁ F₁' D₁' e₁') (d₂ : DRuns K z owed (e₂.flush owed) t₂ F₂' D₂' e₂')
+    (c₁ : e₁'.sout = 0) (c₂ : e₂'.sout = 0) :
+    D₁ ++ D₁' = D₂ ++ D₂' ∧ (D₁ ++ D₁').length = owed xs.length := by
+  have hpw : PlanWF (lp.map LStage.toPlan) := by
+    intro p hp
+    obtain ⟨y, hy, rfl⟩ := List.mem_map.mp hp
+    exact hwf y hy
+  have f1 := (stream_counters K z owed s₁ _ _ _ _ rfl n₁ r₁).1
+  have f2 := (stream_counters K z owed s₂ _ _ _ _ rfl n₂ r₂).1
+  have b1 := (Soxr.Properties.C03.never_early_round K z owed lp hwf he hlat hpost hpos s₁ xs D₁ e₁ r₁ f1).2
+  have b2 := (Soxr.Properties.C03.never_early_round K z owed lp hwf he hlat hpost hpos s₂ xs D₂ e₂ r₂ f2).2
+  exact complete_runs_equal K z owed _ hpw xs s₁ s₂ t₁ t₂ D₁ D₂ F₁' F₂' D₁' D₂' e₁ e₂ e₁' e₂' n₁ n₂ r₁ r₂
+    (Nat.le_trans b1 howed) (Nat.le_trans b2 howed) d₁ d₂ c₁ c₂
 
 /-- **Every output sample is the canonical function of the input** (engine law E3): at any point of any run, what has
     been delivered followed by what waits in the output FIFO is the canonical stream of the pipeline for the input
